@@ -601,8 +601,12 @@ def _iterates_rules(f, it, K):
             return True
         if isinstance(x, ast.Attribute) and x.attr == "rules":
             return True
-        if isinstance(x, ast.Name) and x.id in ("cfg", "special_rules") and not isinstance(parent(x), ast.Attribute):
-            return True
+        if isinstance(x, ast.Name) and not isinstance(parent(x), ast.Attribute):
+            if x.id == "cfg":
+                return True
+            d = W_.single_def(f.node, x.id)
+            if d is not None and any(isinstance(y, ast.Call) and W_.call_name(y) == "Rule" for y in ast.walk(d)):
+                return True
     return False
 
 
